@@ -2934,12 +2934,14 @@ class TensorDict(TensorDictBase):
                 continue
             dtype = entry_metadata.get("dtype")
             shape = entry_metadata.get("shape")
-            if (
-                not (prefix / f"{key}.memmap").exists()
-                or dtype is None
-                or shape is None
-            ):
+            if dtype is None or shape is None:
                 # invalid dict means
+                continue
+            if not (prefix / f"{key}.memmap").exists() and (
+                entry_metadata.get("is_nested", False)
+                or torch.Size(shape).numel() != 0
+            ):
+                # a tensor without elements has no file: it is still an entry
                 continue
             try:
                 # this was absent in earlier versions of pytorch
